@@ -1,7 +1,7 @@
 SPECIFICATION TraceSpec
 CONSTANTS
   Users = {"a", "b", "c"}
-  Contracts = {"x", "y", "s"}
+  Contracts = {"x", "y", "s", "e"}
   Hangers = {"z"}
   Ghosts = {"g"}
   Keys = {"k1", "k2"}
